@@ -93,7 +93,11 @@ def task_case(outs, final, pos, mask, rng):
     order = []
     it = iter(events)
     for p in pos:
-        order.append(('T', f'task:{spec}') if p == 'T' else next(it))
+        if p == 'T':
+            order.append(('T', f'task:{spec}'))
+            order.append(('T', f'mirror:{nfut}'))      # a consumer of the task's future: its done-callbacks must be delivered too
+        else:
+            order.append(next(it))
     groups = [('L', ['na'] * nfut)] if nfut else []
     cur = []
     for i, (ev, op) in enumerate(order):
@@ -102,7 +106,7 @@ def task_case(outs, final, pos, mask, rng):
             needs_loop = any(isinstance(e, int) for e, _ in cur)
             groups.append(('L' if needs_loop else rng.choice('LC'), [o for _, o in cur]))
             cur = []
-    return dict(fam='task', n=k, outs=all_outs, final=final, spec=spec, groups=groups, handles={'W': nfut},
+    return dict(fam='task', n=k, outs=all_outs, final=final, spec=spec, groups=groups, handles={'W': nfut, 'M': nfut + 1},
                 order=[str(p) for p in pos])
 
 
@@ -409,6 +413,11 @@ def monitor_task(case, steps):
             sig = 'cancel-lost-create-task' if (want == 'C' and got == 'P') else 'task-wrong-outcome'
             return [fail(case, sig, "the future returned for a scheduled coroutine ends with the coroutine's outcome",
                          dict(step=i, got=got, want=want))]
+        hm = case['handles'].get('M')
+        if op == 'drain' and hm is not None and hm < len(hs) and want[0] in 'VXC' and hs[hm] != want:
+            return [fail(case, 'task-outcome-not-delivered', "the outcome of a scheduled coroutine is delivered to whoever waits on the "
+                         'returned future (here: its mirror), whichever thread and current loop it was scheduled from',
+                         dict(step=i, task=got, mirror=hs[hm], want=want))]
         if got != 'P' and got != want:
             return [fail(case, 'task-wrong-outcome', 'nothing else is delivered', dict(step=i, got=got, want=want))]
     return []
